@@ -358,7 +358,7 @@ def normalise_fn(text, log=None, result_name="r_", signature_only=False):
                 while q < close:
                     x = toks[q]
                     at_stmt_start = toks[q - 1].text in ("{", ";", "}")
-                    if x.kind == "ident" and x.text == "if" and at_stmt_start:
+                    if x.kind == "ident" and x.text == "if" and at_stmt_start and toks[q + 1].text != "let":
                         dd = 0
                         b = q + 1
                         while not (toks[b].text == "{" and dd == 0):
@@ -385,6 +385,33 @@ def normalise_fn(text, log=None, result_name="r_", signature_only=False):
                                 b2 += 1
                             q = match_close(toks, b2) + 1
                         continue
+                    if x.kind == "ident" and x.text == "if" and at_stmt_start and toks[q + 1].text == "let":
+                        # N6: `if let P = E && C { S continue; }` followed by the rest R of the body
+                        #     => `if let P = E { if C { S } else { R } } else { R }`   (R is duplicated)
+                        dd = 0
+                        b = q + 2
+                        amp = None
+                        while not (toks[b].text == "{" and dd == 0):
+                            if toks[b].text in ("(", "["):
+                                dd += 1
+                            elif toks[b].text in (")", "]"):
+                                dd -= 1
+                            elif toks[b].text == "&&" and dd == 0 and amp is None:
+                                amp = b
+                            b += 1
+                        bc = match_close(toks, b)
+                        if amp is not None and toks[bc - 1].text == ";" and toks[bc - 2].text == "continue" and toks[bc + 1].text != "else" and bc + 1 < close:
+                            head = text[toks[q + 1].start:toks[amp - 1].end]
+                            cond = text[toks[amp + 1].start:toks[b - 1].end]
+                            s_text = text[toks[b].end:toks[bc - 2].start].strip()
+                            r_text = text[toks[bc].end:toks[close].start].strip()
+                            edits.append((toks[q].start, toks[bc].end, "if %s { if %s { %s } else {" % (head, cond, s_text)))
+                            tail_closers.append("} } else { %s }" % r_text)
+                            open_order.append("N6")
+                            if log is not None:
+                                log.append({"rule": "N6", "loop": k, "head": head, "cond": cond, "then": s_text, "rest": r_text})
+                            q = close   # the rest of the body is R
+                            continue
                     if x.kind == "ident" and x.text == "let" and at_stmt_start:
                         # N5: `let P = E else { S continue; };` followed by the rest R of the body
                         #     => `if let P = E {` R `} else { S }`
@@ -590,6 +617,9 @@ def prepass(text, opaque=None, log=None):
                 bc = match_close(toks, j)
                 if bc + 1 < len(toks) and texts[bc + 1] == "else":
                     raise ExtractError("N3: let-chain with else is not supported")
+                if texts[bc - 1] == ";" and texts[bc - 2] == "continue":
+                    i += 1
+                    continue   # `.. { S; continue; }` inside a for body is rule N6's shape
                 head = text[toks[i + 1].start:toks[amp - 1].end]      # `let P = E`
                 cond = text[toks[amp + 1].start:toks[j - 1].end]       # C
                 edits.append((toks[amp - 1].end, toks[j].end, " { if %s {" % cond))
@@ -770,6 +800,21 @@ def invert_n2(s, conds):
         if s[e + 1] != "}":
             raise ExtractError("N2 inverse: wrapper does not end the loop body")
         s = s[:hit] + ["if"] + cond + ["{", "continue", ";", "}"] + s[hit + n:e] + s[e + 1:]
+    return s
+
+
+def invert_n6(s, rules):
+    """`if let P = E { if C { S } else { R } } else { R }`  =>  `if let P = E && C { S continue ; } R`"""
+    for r in rules:
+        head = [t.text for t in code_tokens(r["head"])]
+        cond = [t.text for t in code_tokens(r["cond"])]
+        then = [t.text for t in code_tokens(r["then"])]
+        rest = [t.text for t in code_tokens(r["rest"])]
+        pat = ["if"] + head + ["{", "if"] + cond + ["{"] + then + ["}", "else", "{"] + rest + ["}", "}", "else", "{"] + rest + ["}"]
+        i = _find_seq(s, pat)
+        if i < 0:
+            raise ExtractError("N6 inverse: expanded form of `if %s && ..` not found" % r["head"])
+        s = s[:i] + ["if"] + head + ["&&"] + cond + ["{"] + then + ["continue", ";", "}"] + rest + s[i + len(pat):]
     return s
 
 
